@@ -137,6 +137,19 @@ def generate(tier, rng):
             yield {'suite': NAME, 'passthrough': pt, 'ops': [{'op': 'add', 'ep': EPS[0], 'm': 'm1', 'patch': patch('result', 1, id='cfg')},
                                                             {'op': 'add', 'ep': EPS[0], 'm': 'm1', 'patch': patch('error', 2, id='cfg')},
                                                             request(EPS[0], batch), request(EPS[0], call('m1', 3))]}
+    # the same patch configuration added twice is two patches (two once-patches answer two calls)
+    for once in (False, True):
+        for kind in ('result', 'error'):
+            ops = [{'op': 'add', 'ep': EPS[0], 'm': 'm1', 'patch': patch(kind, 5, once)}, {'op': 'add', 'ep': EPS[0], 'm': 'm1', 'patch': patch(kind, 5, once)},
+                   {'op': 'add', 'ep': EPS[0], 'm': 'm1', 'patch': patch('result', 6)}]
+            ops += [request(EPS[0], call('m1', i)) for i in range(5)]
+            yield {'suite': NAME, 'passthrough': False, 'ops': ops}
+    # notifications to a patched endpoint are matched, recorded and consume patches like calls
+    for once in (False, True):
+        ops = [{'op': 'add', 'ep': EPS[0], 'm': 'm1', 'patch': patch('result', 1, once)}, {'op': 'add', 'ep': EPS[0], 'm': 'm1', 'patch': patch('result', 2)},
+               request(EPS[0], call('m1', None, [1])), request(EPS[0], call('m1', 7)), request(EPS[0], [call('m1', None), call('m1', None, {'a': 1})]),
+               request(EPS[0], call('m1', 8))]
+        yield {'suite': NAME, 'passthrough': False, 'ops': ops}
     # replace(idx) addresses the live queue position, also after the queue has rotated
     for n_patches in (2, 3):
         for k_calls in range(0, 4):
@@ -213,7 +226,14 @@ def run_half(c, half):
                     outs.append('ok')
                 else:
                     cl = clients[o['ep']]
-                    r = cl._request(o['text'], False)
+                    # the flag a real client passes: the request (or every element of the batch) carries no id
+                    try:
+                        _d = json.loads(o['text'])
+                        _n = (all(isinstance(x, dict) and 'id' not in x for x in _d) and bool(_d)) if isinstance(_d, list) else \
+                            (isinstance(_d, dict) and 'id' not in _d)
+                    except ValueError:
+                        _n = False
+                    r = cl._request(o['text'], _n)
                     if is_async:
                         r = S.loop().run_until_complete(r)
                     if isinstance(r, str) and r.startswith('ORIGINAL:'):
